@@ -347,8 +347,9 @@ def evaluate_expression(expr, options=None, locals_=None, builtins=True):
                     result = left_value ** right_value
                     return result if not isinstance(result, complex) else None
 
-        # Arithmetic errors (division by zero, overflow, out-of-range datetime, non-finite number in JSON) yield null
-        except (ArithmeticError, ValueError):
+        # Arithmetic errors (division by zero, overflow, out-of-range datetime, non-finite number in JSON) and operands
+        # that contain themselves (endless comparison) yield null
+        except (ArithmeticError, ValueError, RecursionError):
             return None
 
         # Invalid operation values
